@@ -1,7 +1,7 @@
 (* C13 — slashing/jailing and admin operations compose safely. *)
 From stdpp Require Import gmap.
 Require Import Model.Base Model.Validate Model.State Model.Staking Model.Slashing Model.Poa Model.App.
-Require Import proofs.L1More proofs.Inv proofs.InvIdx proofs.InvPres proofs.InvMsgs proofs.InvHistory proofs.InvQueue proofs.InvPools proofs.InvElig.
+Require Import proofs.L1More proofs.Inv proofs.InvIdx proofs.InvPres proofs.InvMsgs proofs.InvHistory proofs.InvQueue proofs.InvPools proofs.InvComet proofs.InvElig.
 
 (* admin operations aimed at a jailed validator fail cleanly (the transaction wrapper then restores the state) *)
 Theorem C13_set_power_on_jailed_fails : forall c val power unsafe v,
@@ -59,3 +59,32 @@ Theorem C13_index_complete : forall g bs id v,
 Proof.
   intros g bs id v s Hv Hj Hp. apply (reachable_IC g bs id v I Hv). unfold eligible. rewrite Hj. cbn. apply Z.ltb_lt. exact Hp.
 Qed.
+
+(* a jailed validator is in nobody's set: at the end of every block of every history — whatever the admin did to it
+   or to anyone else meanwhile, whatever max_validators is — a validator whose record is jailed has no last power and
+   its consensus key is absent from the set CometBFT holds; it can come back only by being unjailed *)
+Theorem C13_jailed_is_out_of_the_set : forall g bs id v,
+  wf_genesis g ->
+  let w := run_world (init_world g) bs in
+  w_halted w = None ->
+  vals (stk (w_chain w)) !! id = Some v -> v_jailed v = true ->
+  last_pow (stk (w_chain w)) !! id = None /\ c_next (w_comet w) !! v_cons v = None.
+Proof.
+  intros g bs id v Hg w Hh Hv Hj.
+  assert (Hl : last_pow (stk (w_chain w)) !! id = None).
+  { destruct (last_pow (stk (w_chain w)) !! id) as [q|] eqn:El; [|reflexivity]. exfalso.
+    destruct (reachable_members_ok g bs Hg Hh id q El) as (v' & Hv' & Hj' & _). unfold w in Hv. congruence. }
+  split; [exact Hl|].
+  destruct (c_next (w_comet w) !! v_cons v) as [p|] eqn:Ek; [|reflexivity]. exfalso.
+  apply (reachable_comet_rel g bs Hg Hh (v_cons v) p) in Ek as (id' & v' & Hv' & Hc & Hl').
+  destruct (reachable_CI g bs Hg) as [HS _]. assert (id' = id) by (eapply (si_cons _ HS); eauto). subst id'. unfold w in Hl. congruence.
+Qed.
+
+(* and when it is back (or was never away) its power is the one implied by its tokens: admin-assigned amount less any slash *)
+Theorem C13_member_power_is_token_power : forall g bs id q,
+  wf_genesis g ->
+  let w := run_world (init_world g) bs in
+  w_halted w = None ->
+  last_pow (stk (w_chain w)) !! id = Some q ->
+  exists v, vals (stk (w_chain w)) !! id = Some v /\ v_jailed v = false /\ q = tokens_to_power (v_tokens v) /\ 0 < q.
+Proof. intros g bs id q Hg w Hh Hl. exact (reachable_members_ok g bs Hg Hh id q Hl). Qed.
